@@ -256,3 +256,30 @@ func TestReplayDeterminism(t *testing.T) {
 		t.Fatalf("replay differs or aborted: %v\n%v\n%v", x.Aborted, x.Trace, y.Trace)
 	}
 }
+
+// A buffered channel is FIFO even when the buffer is full and a receiver is about to receive: the value of a
+// blocked sender must not overtake the buffered ones (regression test for an engine defect found through C19).
+func TestBufferedChannelFIFOWithPendingReceiver(t *testing.T) {
+	var got string
+	body := func() {
+		got = ""
+		ch := make(chan int, 2)
+		done := make(chan struct{})
+		rt.Go("consumer", func() {
+			for i := 0; i < 4; i++ {
+				got += fmt.Sprint(rt.Recv(ch))
+			}
+			rt.Close(done)
+		})
+		for i := 1; i <= 4; i++ {
+			s := rt.NewSelect(false)
+			rt.SelSend(s, ch, i)
+			s.Wait()
+		}
+		rt.Recv(done)
+	}
+	o := outcomes(t, 3, body, func() string { return got })
+	if len(o) != 1 || o["1234"] == 0 {
+		t.Errorf("buffered channel must deliver in FIFO order under every schedule, got %v", o)
+	}
+}
